@@ -237,10 +237,9 @@ def run_mismatch_shards(prop: str, tie: str, header: str, fn: str, eqb: str,
 
     def one(k):
         body = ";\n  ".join(f"({a}, {b})" for a, b in shards[k])
+        # the literal is an argument of a lambda so that its type is inferred from fn/eqb
         text = (f"{header}\nOpen Scope string_scope.\nOpen Scope list_scope.\n"
-                f"Definition cases :=\n  [{body}].\n"
-                f"Eval vm_compute in (mismatches {eqb} {fn} cases).\n"
-                f"Eval vm_compute in [List.length cases].\n")
+                f"Eval vm_compute in ((fun cs => (mismatches {eqb} {fn} cs, [List.length cs]))\n  [{body}]).\n")
         rc, out = coq_eval_file(f"cases_{prop}_{tie}_{k}", text, timeout=timeout)
         return k, rc, out
 
@@ -250,10 +249,11 @@ def run_mismatch_shards(prop: str, tie: str, header: str, fn: str, eqb: str,
             if rc != 0:
                 errors.append(f"shard {k}: coqc rc={rc}: {out[-1500:]}")
                 continue
-            lists = parse_nat_list(out)
-            if len(lists) != 2 or lists[1] != [len(shards[k])]:
+            m = re.search(r"=\s*\((\[[^\]]*\]|nil),\s*\[(\d+)\]\)", out, re.S)
+            if not m or int(m.group(2)) != len(shards[k]):
                 errors.append(f"shard {k}: unexpected output: {out[-800:]}")
                 continue
+            lists = [[int(x) for x in re.findall(r"\d+", m.group(1))]]
             mism.extend(k * shard + i for i in lists[0])
     return mism, errors
 
